@@ -150,7 +150,7 @@ func main() {
 	}
 	cases, maxOps, torn := 6, 24, 2
 	if r.Thorough() {
-		cases, maxOps, torn = 60, 60, 4
+		cases, maxOps, torn = 150, 60, 4
 	}
 	for i := 0; i < cases; i++ {
 		n := 1 + rng.Intn(maxOps)
